@@ -2,89 +2,104 @@
 
 CFG = {'module': 'Dnp3.Props.C02',
  'gen': [],
- 'engines': ['pairdata', 'pairmerge'],
+ 'engines': ['pairdata', 'pairmerge', 'db'],
  'engine_model': {'pairsync': 'pair', 'pairdata': 'pair'},
- 'monitors': ['converged_after_quiescence', 'nothing_fabricated', 'events_delivered_at_least_once',
-              'no_resurrection', 'wire_account'],
- 'rule': 'engine pairmerge (SEARCH ONLY, no model counterpart, nothing diffed: both families of histories with the relay '
-         'allowed to merge consecutive fragments into one write; only the monitors run).  engine pairdata: the REAL MasterTask and the REAL OutstationTask, each behind the real link layer and '
-         'transport over its own in-memory pipe on one paused clock, joined by the harness acting as the wire.  '
-         'Histories (6-45 ops + tail): update transactions over binary and analog points in classes 0-3 (over-range '
-         'analogs, all flag patterns, points added late, databases of 30-260 points forcing multi-fragment '
-         'responses), user reads of every class combination, periodic polls (add / demand), unsolicited reporting '
-         'on/off with retries none/0/1/3, commands (direct and select-before-operate), per-direction delays '
-         '0..6000 ms changed at any time, hold / release, delivery of the next 1..600 octets (stopping inside link '
-         'frames), re-chunking 1..1000 octets, cuts at any point (octets in flight lost, both sessions restart), '
-         'event buffers of 1..50 per type (overflow), tx buffers 249..2048, both link error modes, automatic tasks '
-         'of the master on/off; kind ovfread (1 case in 5): event buffers of 36-50 per type behind a 249 / 300 octet '
-         'response buffer, events collected by periodic event polls / user event reads (unsolicited mostly off), '
-         'bursts of updates longer than the buffer racing with the polls, so that event reads take several fragments '
-         'and IIN2.3 is reported in series whose confirms free the buffer again (counters '
-         'c02_multifragment_event_read, c02_overflow_during_multifragment_read, '
-         'c02_iin23_only_in_nonfinal_fragments_<task>).  Every history ends with a quiescent tail (appiin 0, no '
-         're-chunking, delays 0, holds off) after which the handler\'s last value per point is compared with the '
-         'database; two kinds of tail, half of the cases each (3 in 4 for ovfread).  EXPLICIT: 75 s settling, two '
-         'user reads of classes 0-3 (`@converged`): every point must be current, every event not reported as '
-         'overflow-discarded must have reached the handler.  AUTO (`@converged auto`): NO user request; 1 auto '
-         'tail in 4 (1 in 8 for ovfread) first cuts the connection once more; then only virtual time passes, about '
-         '280 s in 62 steps: four blocks of 20 s in steps of 0.5-5 s separated by waits of 10-61 s (response '
-         'time-out <= 20 s, confirm time-out <= 15 s, unsolicited retry delay <= 5 s, back-off of the automatic tasks '
-         '<= 10 s, poll periods <= 60 s all fire several times); when the configuration makes the start-up '
-         'integrity poll slow (unsolicited on, int != 0, a class in `en` that is not in `dis`, rto <= ctimeout, and a '
-         'cut occurred: after the reconnection the outstation still reports unsolicited, the master neither '
-         'disables it first nor confirms unsolicited data before its integrity poll is complete, and the outstation '
-         'defers the READ until the confirm time-out, i.e. beyond the response time-out unless the READ arrives '
-         'late in a confirm wait) the time passes in 1600 steps of 250 ms instead, because coarse steps re-align '
-         'the two endpoints at every step.  WHEN CONVERGENCE IS EXPECTED WITHOUT A USER READ (judged per point, '
-         'from the cfg line, the addpoll ops that succeeded and the trace; ops are numbered, within an op the '
-         'database effect comes first): the current value of point p (class c; last added / updated in op u) is '
-         'OWED to the handler iff  (A) a periodic poll whose classes include class 0 is configured (it re-reads '
-         'every point), or  (B) c is 1..3, the last update of p was recorded as an event that was not '
-         'overflow-discarded, and events of class c are reported by the library itself: a periodic poll whose '
-         'classes include c, or unsolicited=1 at the outstation and c in the master\'s `en` mask, or c in `evscan` '
-         'and at least one periodic poll (of any classes) is configured (its response carries CLASS_c_EVENTS and '
-         'triggers the automatic event scan), or  (C) the master\'s integrity poll includes class 0 (`int` & 8) '
-         'and was due after u: (C1) the connection was cut in an op >= u (start-up integrity poll of the new '
-         'session), or (C2) ovf=1 and in an op >= u the handler was handed a fragment with IIN2.3 '
-         '(begin_fragment) while no READ of the master written before op u was in progress (an indication '
-         'received during a READ written before u may arrive during the integrity poll itself, which absorbs it).  '
-         'NOT owed, hence counted (c02_auto_point_stale_not_owed) and not failed: class-0 points and points whose '
-         'last event was discarded when there is neither a periodic class-0 poll nor a trigger after the update '
-         '(e.g. unsolicited off / `en` without the class and no periodic poll: nothing reports by itself; `int` '
-         'without class 0; ovf=0), and everything when the association was never created.  One such history is a '
-         'FINDING, reported as converged_after_quiescence cause=D28: the point\'s last event was overflow-discarded '
-         'in op d, ovf=1 and `int` includes class 0, and the outstation transmitted response fragments in ops >= d '
-         'but none of them with IIN2.3 (the confirm of a response written before the overflow cleared the '
-         'indication before any response could carry it): the master is never told to recover.  An event is owed '
-         '(events_delivered_at_least_once, auto) iff it was not overflow-discarded and its point\'s class is '
-         'reported by the library itself as in (B).  A point that is owed and not current, or an owed event that '
-         'never reached the handler, is a failure.  Both real tasks and the Lean pair model run every history '
-         '(outputs diffed per op) and the monitors keep an independent mirror database, event ledger and wire '
-         'account.',
- 'trusted_base': ['hand-written Lean models of the outstation session + database and of the master session (as for '
-                  'C03-C05, C11-C17), composed in Model/Pair.lean with two FIFO queues; tied by differential '
-                  'execution of BOTH real tasks joined in process by a scripted relay (engine pairdata)',
-                  'link layer and transport are inside every run (real code on both sides) but not in the pair '
-                  'model: they are tied by C06 / C08',
-                  'handler callbacks are recording implementations; user threads are the harness (one transaction '
-                  'per op, the tasks run to quiescence after each): real multi-threaded interleavings and the TCP '
-                  'client/server tasks (connect loop, back-off) are NOT exercised by this engine'],
+ 'monitors': ['converged_after_quiescence',
+              'nothing_fabricated',
+              'events_delivered_at_least_once',
+              'no_resurrection',
+              'wire_account'],
+ 'rule': 'engine pairmerge (SEARCH ONLY, no model counterpart, nothing diffed: both families of histories '
+         'with the relay allowed to merge consecutive fragments into one write; only the monitors run).  '
+         'engine pairdata: the REAL MasterTask and the REAL OutstationTask, each behind the real link layer '
+         'and transport over its own in-memory pipe on one paused clock, joined by the harness acting as the '
+         'wire.  Histories (6-45 ops + tail): update transactions over binary and analog points in classes '
+         '0-3 (over-range analogs, all flag patterns, points added late, databases of 30-260 points forcing '
+         'multi-fragment responses), user reads of every class combination, periodic polls (add / demand), '
+         'unsolicited reporting on/off with retries none/0/1/3, commands (direct and select-before-operate), '
+         'per-direction delays 0..6000 ms changed at any time, hold / release, delivery of the next 1..600 '
+         'octets (stopping inside link frames), re-chunking 1..1000 octets, cuts at any point (octets in '
+         'flight lost, both sessions restart), event buffers of 1..50 per type (overflow), tx buffers '
+         '249..2048, both link error modes, automatic tasks of the master on/off; kind ovfread (1 case in '
+         '5): event buffers of 36-50 per type behind a 249 / 300 octet response buffer, events collected by '
+         'periodic event polls / user event reads (unsolicited mostly off), bursts of updates longer than '
+         'the buffer racing with the polls, so that event reads take several fragments and IIN2.3 is '
+         'reported in series whose confirms free the buffer again (counters c02_multifragment_event_read, '
+         'c02_overflow_during_multifragment_read, c02_iin23_only_in_nonfinal_fragments_<task>).  Every '
+         'history ends with a quiescent tail (appiin 0, no re-chunking, delays 0, holds off) after which the '
+         "handler's last value per point is compared with the database; two kinds of tail, half of the cases "
+         'each (3 in 4 for ovfread).  EXPLICIT: 75 s settling, two user reads of classes 0-3 (`@converged`): '
+         'every point must be current, every event not reported as overflow-discarded must have reached the '
+         'handler.  AUTO (`@converged auto`): NO user request; 1 auto tail in 4 (1 in 8 for ovfread) first '
+         'cuts the connection once more; then only virtual time passes, about 280 s in 62 steps: four blocks '
+         'of 20 s in steps of 0.5-5 s separated by waits of 10-61 s (response time-out <= 20 s, confirm '
+         'time-out <= 15 s, unsolicited retry delay <= 5 s, back-off of the automatic tasks <= 10 s, poll '
+         'periods <= 60 s all fire several times); when the configuration makes the start-up integrity poll '
+         'slow (unsolicited on, int != 0, a class in `en` that is not in `dis`, rto <= ctimeout, and a cut '
+         'occurred: after the reconnection the outstation still reports unsolicited, the master neither '
+         'disables it first nor confirms unsolicited data before its integrity poll is complete, and the '
+         'outstation defers the READ until the confirm time-out, i.e. beyond the response time-out unless '
+         'the READ arrives late in a confirm wait) the time passes in 1600 steps of 250 ms instead, because '
+         'coarse steps re-align the two endpoints at every step.  WHEN CONVERGENCE IS EXPECTED WITHOUT A '
+         'USER READ (judged per point, from the cfg line, the addpoll ops that succeeded and the trace; ops '
+         'are numbered, within an op the database effect comes first): the current value of point p (class '
+         'c; last added / updated in op u) is OWED to the handler iff  (A) a periodic poll whose classes '
+         'include class 0 is configured (it re-reads every point), or  (B) c is 1..3, the last update of p '
+         'was recorded as an event that was not overflow-discarded, and events of class c are reported by '
+         'the library itself: a periodic poll whose classes include c, or unsolicited=1 at the outstation '
+         "and c in the master's `en` mask, or c in `evscan` and at least one periodic poll (of any classes) "
+         'is configured (its response carries CLASS_c_EVENTS and triggers the automatic event scan), or  (C) '
+         "the master's integrity poll includes class 0 (`int` & 8) and was due after u: (C1) the connection "
+         'was cut in an op >= u (start-up integrity poll of the new session), or (C2) ovf=1 and in an op >= '
+         'u the handler was handed a fragment with IIN2.3 (begin_fragment) while no READ of the master '
+         'written before op u was in progress (an indication received during a READ written before u may '
+         'arrive during the integrity poll itself, which absorbs it).  NOT owed, hence counted '
+         '(c02_auto_point_stale_not_owed) and not failed: class-0 points and points whose last event was '
+         'discarded when there is neither a periodic class-0 poll nor a trigger after the update (e.g. '
+         'unsolicited off / `en` without the class and no periodic poll: nothing reports by itself; `int` '
+         'without class 0; ovf=0), and everything when the association was never created.  One such history '
+         "is a FINDING, reported as converged_after_quiescence cause=D28: the point's last event was "
+         'overflow-discarded in op d, ovf=1 and `int` includes class 0, and the outstation transmitted '
+         'response fragments in ops >= d but none of them with IIN2.3 (the confirm of a response written '
+         'before the overflow cleared the indication before any response could carry it): the master is '
+         'never told to recover.  An event is owed (events_delivered_at_least_once, auto) iff it was not '
+         "overflow-discarded and its point's class is reported by the library itself as in (B).  A point "
+         'that is owed and not current, or an owed event that never reached the handler, is a failure.  Both '
+         'real tasks and the Lean pair model run every history (outputs diffed per op) and the monitors keep '
+         'an independent mirror database, event ledger and wire account. Engine db (see C03): the '
+         'event-detection rule the convergence rests on — an update creates an event iff the flags changed '
+         'or the value left the dead-band around the value LAST REPORTED — with non-zero dead-bands and slow '
+         'drift, on the real Database (the pair engine itself configures dead-band 0).',
+ 'trusted_base': ['hand-written Lean models of the outstation session + database and of the master session '
+                  '(as for C03-C05, C11-C17), composed in Model/Pair.lean with two FIFO queues; tied by '
+                  'differential execution of BOTH real tasks joined in process by a scripted relay (engine '
+                  'pairdata)',
+                  'link layer and transport are inside every run (real code on both sides) but not in the '
+                  'pair model: they are tied by C06 / C08',
+                  'handler callbacks are recording implementations; user threads are the harness (one '
+                  'transaction per op, the tasks run to quiescence after each): real multi-threaded '
+                  'interleavings and the TCP client/server tasks (connect loop, back-off) are NOT exercised '
+                  'by this engine'],
  'assumptions': ['tokio timer / Notify semantics on a paused clock',
-                 'the relay forwards at most one fragment per write (inside a fragment any re-chunking, including '
-                 'stopping inside a link frame for arbitrarily long)',
-                 'point types: binary input (g1v2 / g2v1) and analog input (g30v1 / g32v1), the vocabulary of the '
-                 'session engines; these variations carry no time, so "reported time" is not observable here'],
- 'level_text': 'proof (partial): Lean theorems over the models for all states / histories: the master delivers only '
-               'what a received response carried; the wire of the pair model delivers only what the other side '
-               'transmitted; responses carry only database values / buffered events (database theorems); a '
-               'quiescent class-0 poll hands the handler exactly the current static values (partial); an accepted '
-               'fragment of a READ response with IIN2.3, final or not, leaves the integrity task demanded '
-               '(overflow_iin_demands_integrity, nonfinal_overflow_fragment_step).  Convergence, '
-               'at-least-once event delivery and no-resurrection over whole histories with interruptions are '
-               'runtime predicates: checked by trace monitors on the implementation\'s trace of the deterministic '
-               'pair engine (tails with two explicit integrity reads, and tails with no user request at all in '
-               'which only the library\'s own mechanisms act), with the correspondence of both real tasks vs the '
-               'pair model',
- 'level_note': 'trusted: Lean kernel, harness (relay, recording callbacks, reference database / ledger); Rust '
-               'modelled not verified; real TCP, thread interleavings and reconnect back-off outside the engine '
-               '(the real-TCP loopback search of DESIGN.md is not built)'}
+                 'the relay forwards at most one fragment per write (inside a fragment any re-chunking, '
+                 'including stopping inside a link frame for arbitrarily long)',
+                 'point types: binary input (g1v2 / g2v1) and analog input (g30v1 / g32v1), the vocabulary '
+                 'of the session engines; these variations carry no time, so "reported time" is not '
+                 'observable here'],
+ 'level_text': 'proof (partial): Lean theorems over the models for all states / histories: the master '
+               'delivers only what a received response carried; the wire of the pair model delivers only '
+               'what the other side transmitted; responses carry only database values / buffered events '
+               '(database theorems); a quiescent class-0 poll hands the handler exactly the current static '
+               'values (partial); an accepted fragment of a READ response with IIN2.3, final or not, leaves '
+               'the integrity task demanded (overflow_iin_demands_integrity, '
+               'nonfinal_overflow_fragment_step).  Convergence, at-least-once event delivery and '
+               'no-resurrection over whole histories with interruptions are runtime predicates: checked by '
+               "trace monitors on the implementation's trace of the deterministic pair engine (tails with "
+               'two explicit integrity reads, and tails with no user request at all in which only the '
+               "library's own mechanisms act), with the correspondence of both real tasks vs the pair model",
+ 'level_note': 'trusted: Lean kernel, harness (relay, recording callbacks, reference database / ledger); '
+               'Rust modelled not verified; real TCP, thread interleavings and reconnect back-off outside '
+               'the engine (the real-TCP loopback search of DESIGN.md is not built)',
+ 'engine_monitors': {'db': ['event_iff_beyond_deadband_of_last_reported',
+                            'event_is_recorded_live_in_order',
+                            'kept_until_released_or_discarded']}}
